@@ -299,6 +299,28 @@ func c01Check(cs c01Case) (ds []disc) {
 		metaSent = cs.Meta
 	}
 	// --- read back through HTTP
+	seenHdr := map[string]http.Header{}
+	defer func() {
+		// HEAD reports the same entity headers as GET: besides the ones checked one by one above,
+		// every x-amz-* header that describes the object (not the request)
+		g, h := seenHdr["GET"], seenHdr["HEAD"]
+		if g == nil || h == nil {
+			return
+		}
+		names := map[string]bool{}
+		for _, hd := range []http.Header{g, h} {
+			for n := range hd {
+				if (strings.HasPrefix(n, "X-Amz-") && n != "X-Amz-Id-2" && n != "X-Amz-Request-Id") || n == "Content-Type" || n == "Content-Encoding" || n == "Content-Disposition" || n == "Last-Modified" || n == "Accept-Ranges" {
+					names[n] = true
+				}
+			}
+		}
+		for n := range names {
+			if fmt.Sprint(g[n]) != fmt.Sprint(h[n]) {
+				fail("head-differs-from-get", "GET reports %s %q, HEAD reports %q", n, g[n], h[n])
+			}
+		}
+	}()
 	for _, method := range []string{"GET", "HEAD"} {
 		r := s3x.Do(st.Handler, &s3x.Req{Method: method, Path: "/bk0/" + readKey})
 		if r.Panic != "" {
@@ -309,6 +331,7 @@ func c01Check(cs c01Case) (ds []disc) {
 			fail("read-failed", "%s answered %s", method, r)
 			continue
 		}
+		seenHdr[method] = r.Header
 		if method == "GET" && !bytes.Equal(r.Body, body) {
 			fail("body", "GET returned %d bytes (md5 %s), uploaded %d bytes (md5 %s)", len(r.Body), md5hex(r.Body), len(body), md5hex(body))
 		}
